@@ -10,7 +10,7 @@ def check(rep):
     ER.rule_random_guarded(ctx, rid="C15.KEY-NEVER-RANDOM")
     PR.rule_compiles(ctx, rid="C15.SHAPE-COMPILES", strict=False)
     PR.rule_key(ctx, rid="C15.STR-ONLY", mode="str-only")
-    PR.rule_renderers(ctx, rid="C15.SALT-EXACT", kinds=("str",))
+    PR.rule_renderers(ctx, rid="C15.SALT-EXACT", kinds=("str",), only_tags=("salt",))
     PR.rule_coercions(ctx, rid="C15.SALT-VALUE", fields={"salt", "splitting_fields"})
     ER.rule_value_keyed_caches(ctx, rid="C15.NO-VALUE-KEYED-CACHE", modules={"binning/binning.py", "experiment_evaluator.py"})
     ER.rule_call_forwards(ctx, rid="C15.CALL-FORWARDS")
